@@ -160,16 +160,29 @@ def check_marking(res, pm, kind, eta, theta, glue, X, hist, exact=True):
         vt = [F(v) for v in eta[:, 0]] if exact else list(eta[:, 0])
         vs = [F(v) for v in eta[:, 1]] if exact else list(eta[:, 1])
         k, vk = shortest_prefix(vt + vs, th2)
-        mt = [idx[id(e)] for e in calls[0] if id(e) in idx]
-        # space calls are made on the element itself or on its two time-children
-        ms = []
-        for e in calls[1]:
+        # the numbers of marked contributions are printed by the call itself
+        m1 = re.search(r'Marked (\d+) elements for time', out)
+        m2 = re.search(r'Marked (\d+) elements for space', out)
+        n_time = int(m1.group(1)) if m1 else len(calls[0])
+        n_space = int(m2.group(1)) if m2 else -1
+        mt_calls = [idx[id(e)] for e in calls[0] if id(e) in idx]
+        ms_calls = []
+        for e in calls[1]:  # space calls are made on the element itself or on its two time-children
             p = e if id(e) in idx else e.parent
-            if p is not None and id(p) in idx and idx[id(p)] not in ms:
-                ms.append(idx[id(p)])
-        ok_count = len(mt) + len(ms) == k
-        ok_ties = all(vt[i] >= vk for i in mt) and all(vs[i] >= vk for i in ms) and \
-            all(i in mt for i in range(len(vt)) if vt[i] > vk) and all(i in ms for i in range(len(vs)) if vs[i] > vk)
+            if p is not None and id(p) in idx and idx[id(p)] not in ms_calls:
+                ms_calls.append(idx[id(p)])
+        sure_t = [i for i in range(len(vt)) if vt[i] > vk]
+        sure_s = [i for i in range(len(vs)) if vs[i] > vk]
+        n_tied = k - len(sure_t) - len(sure_s)
+        tied = [('t', i) for i in range(len(vt)) if vt[i] == vk] + [('s', i) for i in range(len(vs)) if vs[i] == vk]
+        if n_tied == len(tied):   # the marked set is determined by the values alone
+            mt = sure_t + [i for a, i in tied if a == 't']
+            ms = sure_s + [i for a, i in tied if a == 's']
+        else:                     # a tie is broken by the (stable) sort: accept the choice the code made
+            mt, ms = mt_calls, ms_calls
+        ok_count = (n_time + n_space == k) if n_space >= 0 else (len(mt_calls) + len(ms_calls) == k)
+        ok_ties = all(vt[i] >= vk for i in mt_calls) and all(vs[i] >= vk for i in ms_calls) and \
+            all(i in mt_calls for i in sure_t)
         nontrivial = True
     if not ok_count:
         res.violation('C06:prefix-not-shortest:' + kind, dict(marked=len(mt) if kind == 'diso' else len(mt) + len(ms),
